@@ -19,6 +19,7 @@ RULE = ("Hypothesis draws a convergence precision p in {None, 0..12}, verbose on
         "Non-trivial = a stop strictly before the requested n, or a later call on a converged calibrator. Sub-check "
         "'after_failed_batch': a user-defined scheduler whose update() raises once; the later calibrate() calls on the same "
         "object must follow the same rule over the recorded losses.")
+RULE = RULE.replace('the later calibrate() calls on the same object must follow the same rule over the recorded losses.', 'the later calibrate() calls on the same object must follow the same rule over the recorded losses. The precision may be reassigned between calls; line-ups may contain history-driven samplers; a user scheduler may scribble on what update() hands it.')
 ASSUMPTIONS = ["|min| within a relative hair (1e-12) of 0.5*10^-p may be decided either way (decimal rounding of a binary float)",
                "losses are scripted through a stub loss object so every float can be placed at the boundary"]
 SHARDS = {"quick": 8, "thorough": 16}
